@@ -42,7 +42,17 @@ def run(ctx, rep):
     cropped(prog, rep, cn)
     translated(prog, rep, cn)
     converted(prog, rep, cn)
+    try:
+        forwards_on_every_path(prog, rep)
+    except Exception as e:
+        import traceback; traceback.print_exc()
+        rep.fail("R03.8", "engine", "forwarding analysis crashed: %r" % (e,), status="undecided")
     defaults(prog, rep, cn)
+    try:
+        cropped_initial_skip(prog, rep)
+    except Exception as e:
+        import traceback; traceback.print_exc()
+        rep.fail("R03.9", "engine", "initial skip analysis crashed: %r" % (e,), status="undecided")
     zip_rule_everywhere(prog, rep)
     ext_constructors(prog, rep)
     from rules import axis
@@ -379,3 +389,101 @@ def ext_constructors(prog, rep):
         want = ("call", "*" + adt.split("::")[-1] + "::<'a, T>::new", "_", tuple(P(i + 1, f.body["locals"][i + 1].get("name")) for i in range(n_args)))
         ok = match(ro, want) is not None or (ro[0] == "call" and ro[1].endswith("::new") and adt.split("::")[-1] in ro[1] and list(ro[3]) == [P(i + 1, f.body["locals"][i + 1].get("name")) for i in range(n_args)])
         rep.check(ok, "R03.2", "ext:" + nm, "DrawTargetExt::%s must pass its arguments to %s::new unchanged; found %s" % (nm, adt, show(ro)), at=f.span, fn=f.path)
+
+
+def forwards_on_every_path(prog, rep):
+    """R03.8 the adapters that only re-express a call in the parent's terms — Translated (shift), ColorConverted (colour
+    map) and Cropped (a Translated over a Clipped) — forward *every* call: on every path of draw_iter / fill_contiguous /
+    fill_solid / clear the parent's method of the same name is called exactly once on self.parent and its outcome is the
+    outcome.  (What is forwarded is R03.3 - R03.5; Clipped, which legitimately drops calls, has its own rules R03.1.)  An
+    early `return Ok(())` for areas "outside the parent" compares coordinates of two different frames."""
+    from mirq.paths import Paths, Unsupported, passes_result, show_fact
+    P_ = Paths(prog, inline=lambda g: prog.is_new(g), local_effects=True)
+    n = 0
+    for A in ("translated::Translated", "color_converted::ColorConverted", "cropped::Cropped"):
+        try:
+            parent = selff(prog, A, "parent")
+        except Exception as e:
+            rep.fail("R03.8", A, "anchor lost: %r" % (e,), status="undecided")
+            continue
+        for nm in ("draw_iter", "fill_contiguous", "fill_solid", "clear"):
+            try:
+                f = method(prog, A, nm)
+            except Exception:
+                continue      # not overridden: the trait default applies (R03.6)
+            key = "%s::%s" % (A.split("::")[-1], nm)
+            try:
+                summs = P_.of(f)
+            except Unsupported as e:
+                rep.fail("R03.8", key, "cannot summarise: %s" % e, status="undecided", at=f.span, fn=f.path)
+                continue
+            n += 1
+            bad = []
+            for sm in summs:
+                cs = [e[1] for e in sm.effects if e[0] == "call" and e[1][1].split("::")[-1] == nm and e[1][3] and strip_refs(e[1][3][0]) == parent]
+                if not cs and sm.ret is not None and sm.ret[0] == "call" and sm.ret[1].split("::")[-1] == nm and sm.ret[3] and strip_refs(sm.ret[3][0]) == parent:
+                    cs = [sm.ret]
+                cond = "; ".join(show_fact(x)[:70] for x in sm.facts[:2]) or "always"
+                if len(cs) != 1:
+                    bad.append("when %s: %s" % (cond, "the call is not forwarded (returns %s)" % show(sm.ret, maxd=3) if not cs else "forwarded %d times" % len(cs)))
+                elif not (passes_result(sm, cs[0]) or sm.ret[:4] == cs[0][:4]):
+                    bad.append("when %s: the parent's outcome is not the outcome (returns %s)" % (cond, show(sm.ret, maxd=3)))
+            rep.check(bool(summs) and not bad, "R03.8", key, "%s must forward every call to self.parent.%s and return its outcome: %s" % (key, nm, "; ".join(bad[:2])), at=f.span, fn=f.path)
+    rep.floor("R03.8", "forwarding adapter methods", n, 10)
+
+
+def cropped_initial_skip(prog, rep):
+    """R03.9 the colour-stream cropper starts at the first colour of the crop: iterator::contiguous::Cropped::new discards
+    exactly S = crop.top_left.y * size.width + crop.top_left.x colours of the source (crop = Rectangle(zero, size) ∩
+    crop_area).  On path summaries: a path that pulls from the source does so once, by nth(S - 1), and has established
+    0 < S; a path that does not pull has established S = 0 (nth(0) would already drop the first colour of the crop)."""
+    from mirq.paths import Paths, Unsupported, holds, show_fact
+    from mirq.origin import subst
+    from rules.c10 import fold
+    CR = "embedded_graphics::iterator::contiguous::Cropped"
+    nw = prog.method1(CR, "new", None)
+    nocast = lambda t: subst(t, lambda n: n[1] if n[0] == "cast" else None)
+    crop = ("call", "*Rectangle::intersection", "_", (("call", "*Rectangle::new", "_", (("call", "*Point::zero", "_", ()), ("param", 2, "size"))), ("param", 3, "crop_area")))
+    tl = ("field", crop, 0)
+    S = ("bin", "Add", ("bin", "Mul", ("field", tl, 1), ("field", ("param", 2, "size"), 0)), ("field", tl, 0))
+    try:
+        summs = Paths(prog, inline=lambda g: prog.is_new(g), local_effects=True).of(nw)
+    except Unsupported as e:
+        rep.fail("R03.9", "contiguous::Cropped::new:initial-skip", "cannot summarise: %s" % e, status="undecided", at=nw.span, fn=nw.path)
+        return
+    bad, und, n_pull, n_idle = [], [], 0, 0
+    for sm in summs:
+        pulls = []
+        for tr in [sm.ret] + [e[1] if e[0] == "call" else e[2] for e in sm.effects]:
+            if not isinstance(tr, tuple):
+                continue
+            for n in walk(tr):
+                if isinstance(n, tuple) and n and n[0] == "call" and n[1].split("::")[-1] in ("nth", "next", "skip", "advance_by", "take", "step_by", "for_each") and n[3] and \
+                        any(x[0] == "param" and x[1] == 1 for x in walk(n[3][0])) and n[:4] not in [p_[:4] for p_ in pulls]:
+                    pulls.append(n)
+        facts = [tuple(nocast(fold(strip_refs(x))) if isinstance(x, tuple) and x and isinstance(x[0], str) else x for x in fc) for fc in sm.facts]
+        conds = "; ".join(show_fact(f)[:80] for f in sm.facts[:2]) or "always"
+        is_S = lambda t: match(nocast(fold(strip_refs(t))), S) is not None
+        pos = any((fc[0] == "lt" and fc[1] == ("const", 0) and is_S(fc[2])) or (fc[0] == "ne" and is_S(fc[1]) and fc[2] == ("const", 0)) or (fc[0] == "le" and fc[1] == ("const", 1) and is_S(fc[2])) for fc in facts)
+        zero = any((fc[0] == "le" and is_S(fc[1]) and fc[2] == ("const", 0)) or (fc[0] == "eq" and {1} and ((is_S(fc[1]) and fc[2] == ("const", 0)) or (is_S(fc[2]) and fc[1] == ("const", 0)))) or
+                   (fc[0] == "lt" and is_S(fc[1]) and fc[2] == ("const", 1)) for fc in facts)
+        if not pulls:
+            n_idle += 1
+            if not zero:
+                bad.append("when %s nothing is discarded although the crop may start after the first colour" % conds)
+            continue
+        n_pull += 1
+        if len(pulls) != 1 or pulls[0][1].split("::")[-1] != "nth" or len(pulls[0][3]) != 2:
+            und.append("when %s the source is advanced by %s" % (conds, "; ".join(show(p_, maxd=3) for p_ in pulls)))
+            continue
+        k = nocast(fold(strip_refs(pulls[0][3][1])))
+        if match(k, ("bin", "Sub", S, ("const", 1))) is None:
+            bad.append("when %s the source is advanced by nth(%s), not nth(S - 1) with S = crop.y * size.width + crop.x" % (conds, show(k, maxd=5)))
+        elif not pos:
+            bad.append("nth(S - 1) is evaluated without having established 0 < S (when %s)" % conds)
+    if bad:
+        rep.fail("R03.9", "contiguous::Cropped::new:initial-skip", "; ".join(sorted(set(bad))[:2]), at=nw.span, fn=nw.path)
+    elif und or n_pull < 1 or n_idle < 1:
+        rep.fail("R03.9", "contiguous::Cropped::new:initial-skip", "; ".join(sorted(set(und))[:2]) or "expected a discarding and an idle path (%d / %d)" % (n_pull, n_idle), status="undecided", at=nw.span, fn=nw.path)
+    else:
+        rep.ok("R03.9", "contiguous::Cropped::new:initial-skip", at=nw.span, fn=nw.path, detail={"paths": len(summs)})
